@@ -306,6 +306,21 @@ func genC10RT(x *Ctx) {
 			runH264RT(c, disable, avc, calls)
 		})
 	}
+	// (c'') quick tier too: ONE unit of 65535 / 65536 / 65537 / 70000 bytes in AVC framing at MTU 1200
+	//       (the 4-byte length prefix has to carry bits 16..23: seed C10-r2-4) and one in Annex-B
+	for _, n := range []int{65535, 65536, 65537, 70000} {
+		for _, avc := range []bool{true, false} {
+			n, avc := n, avc
+			if !avc && n != 65536 {
+				continue
+			}
+			x.Case(func(c *Case) {
+				c.Tag("unit>=2^16")
+				idr := h264Nal(c.R, 5, n)
+				runH264RT(c, true, avc, []h264Call{{mtu: 1200, units: []h264Unit{{true, idr}}}})
+			})
+		}
+	}
 	// (c') units longer than 2^16 (AVC length prefix, uint16 STAP-A sizes that wrap), thorough only
 	if x.Thorough() {
 		for _, mtu := range []int{1200, 65535, 3} {
